@@ -26,6 +26,15 @@ from sa.report import Report  # noqa: E402
 PROPS = ['C01', 'C02', 'C03', 'C04', 'C05', 'C06', 'C07', 'C09', 'C13', 'C14', 'C15', 'C16', 'C17', 'C18', 'C19', 'C20']
 
 
+def analyse(pid, tier, root, evidence_dir=None, quiet=True, model=None):
+    """Run the rules of one property and return the Report (nothing printed or written)."""
+    mod = importlib.import_module(f'rules.{pid.lower()}')
+    model = model or Model(root)
+    rep = Report(pid, tier, root, evidence_dir=evidence_dir, quiet=quiet)
+    mod.run(model, rep, tier)
+    return rep
+
+
 def run_property(pid, tier, root, evidence_dir=None, replay_key=None, quiet=False):
     mod = importlib.import_module(f'rules.{pid.lower()}')
     model = Model(root)
